@@ -424,7 +424,135 @@ func c11Bystander(cs c11ByCase) (out [][2]string) {
 }
 
 // C11: action timeouts are enforced.
+
+// ---- exit-path family: whatever was started for an execution is gone when the call has returned --------
+//
+// The last clause of the property does not depend on a timeout: an execution that ends by itself - on any
+// of its exit paths - under a context that stays alive must leave nothing behind either.
+
+type c11ExitCase struct {
+	Exit string `json:"exit"`     // name of the script (c11Exits)
+	Via  string `json:"exit_via"` // exec-source | exec-compiled | walk-action | walk-guard
+	Ctx  string `json:"ctx"`      // background | cancel-later | deadline-1h
+	Reps int    `json:"reps"`     // executions before the look at the goroutines
+}
+
+var c11Exits = map[string]string{
+	"return-bindings":             `return _.bindings;`,
+	"return-null":                 `return null;`,
+	"return-nothing":              `var x = 1;`,
+	"return-scalar":               `return 7;`,
+	"return-array":                `return [1];`,
+	"return-after-emitting":       `_.out({a: 1}); return {};`,
+	"throw-string":                `throw "x";`,
+	"throw-error":                 `throw new Error("x");`,
+	"throw-object":                `throw {a: 1};`,
+	"throw-tostring-throws":       `throw {toString: function() { throw new Error("no"); }};`,
+	"return-getter-throws":        `return {get likes() { throw new Error("no chips"); }};`,
+	"return-nested-getter-throws": `return {a: [1, {get b() { throw "deep"; }}]};`,
+	"return-function-member":      `return {f: function() {}};`,
+	"out-function":                `_.out(function() {}); return {};`,
+	"out-getter-throws":           `_.out({get a() { throw new Error("no"); }}); return {};`,
+	"reference-error":             `nosuch.x = 1; return {};`,
+	"syntax-error":                `return {;`,
+	"type-error-in-return":        `return null.x;`,
+}
+
+var c11ExitOrder = []string{"return-bindings", "return-null", "return-nothing", "return-scalar", "return-array", "return-after-emitting", "throw-string", "throw-error", "throw-object", "throw-tostring-throws", "return-getter-throws", "return-nested-getter-throws", "return-function-member", "out-function", "out-getter-throws", "reference-error", "syntax-error", "type-error-in-return"}
+
+func c11Exit(cs c11ExitCase) (out [][2]string) {
+	src := c11Exits[cs.Exit]
+	interp := ecmascript.NewInterpreter()
+	var compiled interface{}
+	var spec *core.Spec
+	switch cs.Via {
+	case "exec-compiled":
+		x, err := interp.Compile(context.Background(), src)
+		if err != nil {
+			return nil // a script that does not compile has no compiled form
+		}
+		compiled = x
+	case "walk-action", "walk-guard":
+		as := &core.ActionSource{Interpreter: "ecmascript", Source: src}
+		spec = &core.Spec{Name: "t", ActionErrorNode: "errh", Nodes: map[string]*core.Node{
+			"start": {Branches: &core.Branches{Type: "message", Branches: []*core.Branch{{Pattern: map[string]interface{}{"go": "?g"}, Target: "act"}}}},
+			"done":  {}, "errh": {}}}
+		if cs.Via == "walk-action" {
+			spec.Nodes["act"] = &core.Node{ActionSource: as, Branches: &core.Branches{Branches: []*core.Branch{{Target: "done"}}}}
+		} else {
+			spec.Nodes["act"] = &core.Node{Branches: &core.Branches{Type: "bindings", Branches: []*core.Branch{{GuardSource: as, Target: "done"}, {Target: "errh"}}}}
+		}
+		if err := spec.Compile(context.Background(), nil, true); err != nil {
+			return nil
+		}
+	}
+	time.Sleep(2 * time.Millisecond)
+	before := goroutineIDs()
+	ctx, cancel := context.Background(), context.CancelFunc(func() {})
+	switch cs.Ctx {
+	case "cancel-later":
+		ctx, cancel = context.WithCancel(ctx)
+	case "deadline-1h":
+		ctx, cancel = context.WithTimeout(ctx, time.Hour)
+	}
+	defer cancel()
+	for i := 0; i < cs.Reps; i++ {
+		done := make(chan struct{})
+		var pn bool
+		var pm, where string
+		go func() {
+			defer close(done)
+			pn, pm, where = vh.Trap(func() {
+				if spec != nil {
+					spec.Walk(ctx, &core.State{NodeName: "start", Bs: match.NewBindings()}, []interface{}{map[string]interface{}{"go": 1.0}}, &core.Control{Limit: 10}, nil)
+					return
+				}
+				interp.Exec(ctx, match.Bindings{"a": 1.0}, nil, src, compiled)
+			})
+		}()
+		select {
+		case <-done:
+		case <-time.After(60 * time.Second):
+			return [][2]string{{"execution-that-ends-by-itself-does-not-return", fmt.Sprintf("execution %d did not return within 60 s", i+1)}}
+		}
+		if pn {
+			return [][2]string{{"panic/" + where, pm}}
+		}
+	}
+	// the context is still alive: whatever waits for it would wait for ever
+	leakedNow := func() int {
+		n := 0
+		for id := range goroutineIDs() {
+			if !before[id] {
+				n++
+			}
+		}
+		return n
+	}
+	deadline := time.Now().Add(10 * time.Second)
+	for leakedNow() > 0 {
+		if time.Now().After(deadline) {
+			out = append(out, [2]string{"goroutine-outlives-the-call", fmt.Sprintf("%d goroutine(s) started during %d execution(s) are still alive 10 s after the last one returned, while the context is alive", leakedNow(), cs.Reps)})
+			break
+		}
+		time.Sleep(2 * time.Millisecond)
+	}
+	// ending the context afterwards must be uneventful (no late interrupt into a finished execution that panics)
+	if pn, pm, where := vh.Trap(func() { cancel(); time.Sleep(2 * time.Millisecond) }); pn {
+		out = append(out, [2]string{"panic-on-late-cancel/" + where, pm})
+	}
+	return
+}
+
 func C11(c *vh.Ctx) {
+	ex := func(cs c11ExitCase) {
+		c.InFlight(cs)
+		c.Eval()
+		c.Nontrivial()
+		for _, v := range c11Exit(cs) {
+			c.Violation(fmt.Sprintf("C11/%s/exit-%s/via-%s", v[0], cs.Exit, cs.Via), fmt.Sprintf("%+v: %s", cs, v[1]), cs)
+		}
+	}
 	one := func(cs c11Case) {
 		c.InFlight(cs)
 		c.Eval()
@@ -444,6 +572,11 @@ func C11(c *vh.Ctx) {
 		}
 	}
 	if c.Replay != "" {
+		var ec c11ExitCase
+		if c.LoadReplay(&ec) == nil && ec.Exit != "" {
+			ex(ec)
+			return
+		}
 		var bc c11ByCase
 		if c.LoadReplay(&bc) == nil && bc.Kind != "" {
 			by(bc)
@@ -462,8 +595,20 @@ func C11(c *vh.Ctx) {
 	}
 	c.Bound("cancel_at_tick_max", K)
 	c.Bound("deadlines_ms", deadlines)
-	c.Rule("script shapes {while(true), counting for, unbounded recursion, array push, string concatenation, property read/write, nested calls in a loop, a loop in the toString of a thrown object, in a getter of the returned object, in the message getter of a thrown Error}, with and without a harness tick in the loop body, as action, as guard, and as action plus the guard of the branch that handles the action's failure x cancellation {context already cancelled, deadline already expired, cancel delivered at tick k for k=1..K (with and without a far deadline in the context's ancestry), real deadlines} x error routing {none, ActionErrorNode, ActionErrorBranches} x n in {1,2,4} concurrent executions with independent contexts; oracle: the walk returns (90 s horizon), the script makes no more than a (very large) number of ticks after its context is done, the result is the timeout error routed like any action error, and every goroutine started during the call is gone afterwards (10 s grace). Bystander family: while one execution keeps running under a context that is never cancelled, a second execution on the same interpreter (source text compiled by Exec itself, or one shared compiled program) or on the same compiled spec, whose context is already cancelled / already expired / cancelled at its second tick / expires after 5 ms, must stop while the first is still running (the first gives up after 10^7 ticks, which is then a violation). 'Promptly' in milliseconds is not decided.")
+	c.Rule("script shapes {while(true), counting for, unbounded recursion, array push, string concatenation, property read/write, nested calls in a loop, a loop in the toString of a thrown object, in a getter of the returned object, in the message getter of a thrown Error}, with and without a harness tick in the loop body, as action, as guard, and as action plus the guard of the branch that handles the action's failure x cancellation {context already cancelled, deadline already expired, cancel delivered at tick k for k=1..K (with and without a far deadline in the context's ancestry), real deadlines} x error routing {none, ActionErrorNode, ActionErrorBranches} x n in {1,2,4} concurrent executions with independent contexts; oracle: the walk returns (90 s horizon), the script makes no more than a (very large) number of ticks after its context is done, the result is the timeout error routed like any action error, and every goroutine started during the call is gone afterwards (10 s grace). Bystander family: while one execution keeps running under a context that is never cancelled, a second execution on the same interpreter (source text compiled by Exec itself, or one shared compiled program) or on the same compiled spec, whose context is already cancelled / already expired / cancelled at its second tick / expires after 5 ms, must stop while the first is still running (the first gives up after 10^7 ticks, which is then a violation). Exit-path family: executions that end by themselves on each of 18 exit paths (results of every kind, exceptions of every kind, a result or an emitted value whose getter throws, reference/syntax/type errors) through Exec (source, compiled) and Walk (action, guard), 1 or 3 in a row, under a context that stays alive (background, cancellable, far deadline): no goroutine started for them is alive afterwards (10 s grace) while the context lives, and ending the context afterwards is uneventful. 'Promptly' in milliseconds is not decided.")
 	var idx uint64
+	for _, exit := range c11ExitOrder {
+		for _, via := range []string{"exec-source", "exec-compiled", "walk-action", "walk-guard"} {
+			for _, cx := range []string{"background", "cancel-later", "deadline-1h"} {
+				for _, reps := range []int{1, 3} {
+					idx++
+					if c.Mine(idx) && !c.Expired() {
+						ex(c11ExitCase{Exit: exit, Via: via, Ctx: cx, Reps: reps})
+					}
+				}
+			}
+		}
+	}
 	for _, kind := range []string{"exec-source", "exec-compiled", "walk-shared-spec"} {
 		for _, victim := range []string{"cancelled", "expired", "tick", "deadline"} {
 			idx++
